@@ -11,14 +11,14 @@ HasTok(tokens, S) == \E i \in 1..Len(tokens) : tokens[i] \in S
 Pow10(k) == CASE k = 0 -> 1 [] k = 1 -> 10 [] k = 2 -> 100 [] k = 3 -> 1000 [] k = 4 -> 10000 [] k = 5 -> 100000
               [] k = 6 -> 1000000 [] k = 7 -> 10000000 [] k = 8 -> 100000000 [] k = 9 -> 1000000000
 
-\* number of fraction digits a token carries
-FracDigits(t) ==
-  CASE t \in {"f", "F", ".f", ".F", ";f", ";F"} -> 1
-    [] t \in {"ff", "FF", ".ff", ".FF", ";ff", ";FF"} -> 2
-    [] t \in {"fff", "FFF", ".fff", ".FFF", ";fff", ";FFF"} -> 3
-    [] t \in {"ffffff", "FFFFFF", ".ffffff", ".FFFFFF", ";ffffff", ";FFFFFF"} -> 6
-    [] t \in {"fffffffff", "FFFFFFFFF", ".fffffffff", ".FFFFFFFFF", ";fffffffff", ";FFFFFFFFF"} -> 9
-    [] OTHER -> 0
+\* number of fraction digits a token carries: f/F repeated 1..9 times, optionally introduced by its own '.' or ';'
+RECURSIVE Rep(_, _)
+Rep(c, k) == IF k = 0 THEN "" ELSE c \o Rep(c, k - 1)
+FracSet(k) == {Rep("f", k), Rep("F", k), "." \o Rep("f", k), "." \o Rep("F", k), ";" \o Rep("f", k), ";" \o Rep("F", k)}
+FracTable == [k \in 1..9 |-> FracSet(k)]
+FracDigits(t) == IF \E k \in 1..9 : t \in FracTable[k] THEN CHOOSE k \in 1..9 : t \in FracTable[k] ELSE 0
+AllFrac == UNION {FracTable[k] : k \in 1..9}
+BareFrac == {Rep("f", k) : k \in 1..9} \cup {Rep("F", k) : k \in 1..9}
 MaxFrac(tokens) == LET S == {FracDigits(tokens[i]) : i \in 1..Len(tokens)} IN
                    IF S = {} THEN 0 ELSE CHOOSE m \in S : \A x \in S : x <= m
 
@@ -93,25 +93,25 @@ DurationNonRedundant(tokens) ==
   IN  /\ (IF d THEN 1 ELSE 0) + (IF tH THEN 1 ELSE 0) + (IF tM THEN 1 ELSE 0) + (IF tS THEN 1 ELSE 0) <= 1
       /\ ~(tH /\ ph) /\ ~(tM /\ (pm \/ ph)) /\ ~(tS /\ (ps \/ pm \/ ph))
 DurationVocab == {"D", "DD", "H", "HH", "h", "hh", "M", "MM", "m", "mm", "S", "SS", "s", "ss", "+", "-", ":", ".", " ", "'d'", "'.'", "\\.",
-                  "fff", "ffffff", "fffffffff", "FFF", "FFFFFFFFF", ".fff", ".FFF", ".FFFFFFFFF"}
+                  "fff", "ffffff", "fffffffff", "FFF", "FFFFFFFFF", ".fff", ".FFF", ".FFFFFFFFF"} \cup AllFrac
 
 \* tokens outside the vocabulary the spec gives a meaning to make no round-trip promise
 Understood(tokens, vocab) == \A i \in 1..Len(tokens) : tokens[i] \in vocab
 TimeVocab == {"H", "HH", "h", "hh", "m", "mm", "s", "ss", "t", "tt", ":", ".", " ", "'at'", "\\h", "-", "/", "'T'", ",", "'.'", "\\."}
-             \cup {x \in {"f", "ff", "fff", "ffffff", "fffffffff", "F", "FFF", "FFFFFFFFF", ".fff", ".FFF", ";fff", ";FFFFFFFFF", ";FFF"} : TRUE}
+             \cup AllFrac
 OffsetVocab == {"+", "-", "H", "HH", "m", "mm", "s", "ss", ":", "'x'", "\\:", " "}
 DateVocab == {"yyyy", "uuuu", "uuu", "uu", "u", "M", "MM", "MMM", "MMMM", "d", "dd", "ddd", "dddd", "g", "gg", "c", "/", "-", " ", "'of'", ",", "\\d", "'T'", ":", "."}
 Numeric == {"H", "HH", "h", "hh", "m", "mm", "s", "ss", "yyyy", "uuuu", "uuu", "uu", "u", "M", "MM", "d", "dd", "D", "DD", "S", "SS", "y", "yy"}
-           \cup {"f", "ff", "fff", "ffffff", "fffffffff", "F", "FFF", "FFFFFFFFF"}
+           \cup BareFrac
 \* no two digit-producing fields touch (a fraction introduced by its own '.' or ';' is delimited by it)
 \* an optional fraction (F-family) may print nothing, and with ';' it accepts '.' or ',' when parsing: it must not be
 \* followed by a digit field or by a literal it could mistake for its own separator
-OptFrac == {"F", "FFF", "FFFFFFFFF", ".FFF", ";FFF", ";FFFFFFFFF", ".F", ";F", ".FF", ";FF", ".FFFFFF", ";FFFFFF", ".FFFFFFFFF"}
+OptFrac == UNION {{Rep("F", k), "." \o Rep("F", k), ";" \o Rep("F", k)} : k \in 1..9}
 Delimited(tokens) ==
   /\ \A i \in 1..(Len(tokens) - 1) : ~(tokens[i] \in Numeric /\ tokens[i + 1] \in Numeric)
   /\ \A i \in 1..(Len(tokens) - 1) : tokens[i] \in OptFrac =>
-        tokens[i + 1] \notin (Numeric \cup {".", ",", ";", ".fff", ";fff", ".FFF", ";FFF", ";FFFFFFFFF", "'.'", "\\."})
-  /\ \A i \in 2..Len(tokens) : tokens[i] \in {"F", "FFF", "FFFFFFFFF", "f", "ff", "fff", "ffffff", "fffffffff"} => tokens[i - 1] \notin Numeric
+        tokens[i + 1] \notin (Numeric \cup AllFrac \cup {".", ",", ";", "'.'", "\\."})
+  /\ \A i \in 2..Len(tokens) : tokens[i] \in BareFrac => tokens[i - 1] \notin Numeric
   /\ \A i \in 1..(Len(tokens) - 1) : FracDigits(tokens[i]) > 0 => tokens[i + 1] \notin Numeric
 \* in offset patterns "-" is the negative-only sign: it prints nothing for non-negative values, so it delimits nothing
 DelimitedFor(type, tokens) == IF type = "Offset" THEN Delimited(SelectSeq(tokens, LAMBDA t : t # "-")) ELSE Delimited(tokens)
